@@ -117,7 +117,21 @@ func (x *Exec) verifyBody(fn *ssa.Function, c *Contract, res *FuncResult) {
 			}
 		}
 		if !found {
-			panic(contractError(fmt.Sprintf("loop %d of %s does not exist (contract-shape drift)", n, funcKey(fn))))
+			// A loop clause for a loop that is no longer there (the loop was rewritten as
+			// straight-line code, or merged): untagged invariants are proof structure only -
+			// without them the remaining obligations can only get harder to prove, never
+			// easier - so they are dropped with a note. A tagged (property) loop clause must
+			// not vanish silently.
+			tagged := false
+			for _, inv := range c.Loops[n].Invariants {
+				if inv.Tag != "" {
+					tagged = true
+				}
+			}
+			if tagged {
+				panic(contractError(fmt.Sprintf("loop %d of %s does not exist but carries a property clause (contract-shape drift)", n, funcKey(fn))))
+			}
+			x.note("loop %d of %s no longer exists: its (untagged) loop clauses were ignored", n, funcKey(fn))
 		}
 	}
 	if out == nil {
